@@ -5,7 +5,6 @@ import (
 	"errors"
 	"fmt"
 	"go/ast"
-	"go/format"
 	"go/parser"
 	"go/token"
 	"golang.org/x/tools/imports"
@@ -79,7 +78,7 @@ func (f *File) Apply(filename string, src []byte) ([]byte, error) {
 	}
 
 	var out bytes.Buffer
-	err = format.Node(&out, f.fset, fout)
+	err = goast.Format(&out, f.fset, fout)
 	if err != nil {
 		return nil, err
 	}
